@@ -350,11 +350,21 @@ func runC17Scenario(r *Run, cfg c17Cfg, ops []string, quiet bool) (fails []Fail)
 		}
 		r.CountN("reqs", len(e.reqs))
 		for _, f := range e.fails {
+			// the listed width>1 class must not exhaust the run's failure cap
+			if strings.HasSuffix(f.Sig, "width>1") {
+				c17WidthFails++
+				if c17WidthFails > 60 {
+					r.Count("oracle-failure(width>1, not recorded beyond 60)")
+					continue
+				}
+			}
 			r.Failf(f.Sig, f.Case, "%s", f.Detail)
 		}
 	}
 	return e.fails
 }
+
+var c17WidthFails int
 
 func endsQuiet(ops []string) bool { return len(ops) > 0 && strings.TrimSpace(ops[len(ops)-1]) == "q" }
 
